@@ -18,3 +18,17 @@ class CatalogEntry {
 };
 unsigned long sign_extend(unsigned long address) { if (address & 0x20000) { return 0xFF0000 | address; } else { return address; } }
 }
+
+// R-C02-5: the sorter folds case before testing for the current directory
+#include <cctype>
+struct Ctx5 { char current_directory; };
+struct Entry5 { char d; char directory() const { return d; } };
+bool sorts_first_bad(const Ctx5& ctx, const Entry5& l, const Entry5& r)
+{
+  auto mapdir = [&ctx](char dir) -> char {
+    dir = static_cast<char>(tolower(static_cast<unsigned char>(dir)));
+    return dir == ctx.current_directory ? '\0' : dir;	// BAD: dir already folded
+  };
+  return mapdir(l.directory()) < mapdir(r.directory());
+}
+bool in_current(const Ctx5& ctx, const Entry5& e) { return e.directory() == ctx.current_directory; }
